@@ -34,6 +34,7 @@ PLANS["C04"] = {
             "interposed in the setup (materialised vs never-written cells); TV: seeded text-heavy random walks",
 }
 PLANS["C05"] = {
+    "apalache": True,
     "props": ["C05"], "ops": ["cuu", "cud", "cuf", "cub", "cnl", "cpl", "cha", "vpa", "cup", "bs", "cr"],
     "mc": [mc("C05", geoms("GQuick", "GThorough"), ports({"api": 1, "chars": 2, "bytes": 5}, ALLP))],
     "gen": [walk("C05", 160, 4000), walk("C05", 80, 2000, port="chars"), walk("C05", 16, 400, geom="large", steps=60)],
@@ -137,6 +138,7 @@ PLANS["C17"] = {
             "vectors of the C04/C06/C07/C12/C13/C16 models start from a cleared set",
 }
 PLANS["C09"] = {
+    "apalache": True,
     "props": ["C09"], "ops": [],
     "mc": [{"module": "MCReach", "model": "reach", "kind": "screen", "view": "View", "constraint": "StackBound",
             "constants": {"MaxC": {"quick": 2, "thorough": 3}, "MaxL": {"quick": 2, "thorough": 2}, "Depth": 30},
